@@ -482,11 +482,11 @@ def run_native(top, registry, state, extra_check=None):
             pass
         for owner, attr, orig in patches:
             setattr(owner, attr, orig)
-    if isinstance(exc, RuntimeError) and 'no running event loop' in str(exc):
-        return {'outcome': 'error', 'detail': 'the function needs a running asyncio loop (task-spawning decorator): not runnable by the native harness'}
         teardown = (getattr(top, 'extra', {}) or {}).get('native_teardown')
         if teardown:
             teardown(env)  # undo what native_setup installed outside the objects of this replay (e.g. a patched class attribute)
+    if isinstance(exc, RuntimeError) and 'no running event loop' in str(exc):
+        return {'outcome': 'error', 'detail': 'the function needs a running asyncio loop (task-spawning decorator): not runnable by the native harness'}
     if type(exc).__name__ == 'ReplayTimeout':
         return {'outcome': 'error', 'detail': 'native run exceeded 10 s (possible busy loop)'}
     env2 = dict(env)
